@@ -487,3 +487,17 @@ def r9(cx):
     else:
         cx.violation(ck, "shutdown-flushes-remaining-data", "run_flush_timer can return (shutdown) without taking the buffer and attempting to flush what it held: rows acknowledged with the WAL "
                      "disabled or not yet synced are dropped on a graceful shutdown", [b.sp(r) for r in bad[:2]])
+
+
+@rule("C01", "R10", "what recovery can see is what was acknowledged: the WAL-reading rules of C05 that recovery of acknowledged rows depends on (the reader stops only at a bad record and "
+      "counts only verified records into the valid prefix; open cuts the torn tail; numbering stays above the flushed mark and above every record on disk; replay walks every "
+      "segment in order and keeps exactly the entries above the mark), evaluated for this property")
+def r10(cx):
+    import importlib
+    m = importlib.import_module("rules.C05")
+    ib = len(cx.instances)
+    ob0, di0 = cx.obligations, cx.discharged
+    for f in ("r1", "r3", "r4", "r8", "r9"):
+        getattr(m, f)(cx)
+    cx.obligations = ob0 + len(cx.instances[ib:])
+    cx.discharged = di0 + len([i for i in cx.instances[ib:] if i["verdict"] == "holds"])
